@@ -119,7 +119,13 @@ func (g *Gateway) setSendReceiveBuffers(conn net.Conn) error {
 	if !valConn.IsValid() {
 		return errors.New("cannot find conn field")
 	}
-	valConn = valConn.Elem().Elem()
+	if valConn.Kind() == reflect.Interface {
+		// tls.Conn holds a net.Conn; a plain *net.TCPConn (tls disabled) embeds net.conn directly
+		valConn = reflect.Indirect(valConn.Elem())
+	}
+	if valConn.Kind() != reflect.Struct {
+		return errors.New("cannot find a struct behind the conn field")
+	}
 
 	// net.FD
 	ptrNetFd := valConn.FieldByName("fd")
